@@ -33,6 +33,9 @@ class FloatEngine(object):
     def decide(self, c):
         return bool(c)
 
+    def implicit_raise(self, c, what):
+        return bool(c)
+
     def choose(self, n, label=""):
         k = self.choices[self.cpos] if self.cpos < len(self.choices) else 0
         self.cpos += 1
